@@ -1,9 +1,32 @@
-//! C10, client half (filled in once the client simulator exists).
+//! C10, client half: a fingerprint-configured client appends a valid FINGERPRINT to everything it sends and
+//! never delivers, nor lets complete a transaction, a message whose FINGERPRINT is missing or wrong.
+use super::hist::*;
 use crate::report::*;
+use crate::sim::hgen::HistOpts;
 use serde_json::Value;
 
-pub fn run_into(_ctx: &Ctx, _rr: &mut RunResult) {}
+pub fn prop() -> HistProp {
+    HistProp {
+        focus: &["C10"],
+        opts: HistOpts { max_ops: 30, fingerprint: Some(true), deliver_weight: 9, hostile: 3, app_attrs: true, ..HistOpts::default() },
+        drain: false,
+        quick: 15_000,
+        thorough: 300_000,
+        rule: "",
+        assumptions: &[],
+        nontrivial: |_, s| s.bad_fp_to_outstanding > 0,
+    }
+}
 
-pub fn replay(_ctx: &Ctx, check: &str, _case: &Value) -> Result<(), String> {
-    Err(format!("HARNESS-unknown check {}", check))
+pub fn run_into(ctx: &Ctx, rr: &mut RunResult) {
+    let hp = prop();
+    let opts = hp.opts.clone();
+    rr.absorb(run_prop(ctx, "client-history", ctx.pick(hp.quick, hp.thorough), move || crate::sim::hgen::arb_history(opts.clone()), |h, st| check(&hp, ctx, h, st)));
+}
+
+pub fn replay(ctx: &Ctx, check_name: &str, case: &Value) -> Result<(), String> {
+    match check_name {
+        "client-history" => super::hist::replay(ctx, &prop(), "history", case),
+        _ => Err(format!("HARNESS-unknown check {}", check_name)),
+    }
 }
